@@ -25,6 +25,17 @@ CHECKS = {
             "Exhaustive over all bit patterns of every shipped Qint/Qfixed/Qchar type; nested types exhaustive <=12 bits, boundary+random beyond.",
             "Trusted: the harness's model of the documented encodings."),
 }
+CHECKS.update({
+    "C11": ("5.11", "post-condition monitor on Decompiler.decompile: independent scan for maximal classical runs + reversible simulation over symbolic entry values vs. the reported expressions",
+            "Exploration over random/structured/compiled circuits (thorough: exhaustive <=3-gate circuits on 3 qubits); exhaustive over entry states per section.",
+            "Trusted: own reversible simulator and boolean evaluator."),
+    "C12": ("5.12", "post-condition monitor on circuit_boolean_optimizer: exact unitary / basis-action comparison, gate count, input immutability; recording wrapper counts re-synthesised sections",
+            "Exploration over random, structured and compiled circuits.", "Trusted: own numpy unitary simulator (cross-checked against qiskit in the self-test)."),
+    "C13": ("5.13", "export monitor: unitaries of exported Qiskit/Cirq/Sympy objects vs. own state-vector simulation with qubit i = qubit i; parser for the QASM dialect (formal parameters, body, invocation)",
+            "Exploration over circuits x exporters x {circuit, gate}.", "Trusted: qiskit Operator, cirq.unitary, sympy represent as simulators of the exported objects; QASM angles compared within the two printed decimals."),
+    "C14": ("5.14", "history monitor over composition operators: exact unitary of result vs. product of the parts, operand fingerprints re-read after mutating the result; remove_identities and qft/iqft post-conditions",
+            "Exploration over circuit pairs, remappings, n in 1..5, all qubit lists up to length 5 (sampled in quick).", "Trusted: own numpy unitary simulator."),
+})
 NOT_YET = {}
 
 
